@@ -7,3 +7,5 @@ import Dm.Props.C11
 #print axioms Dm.Props.C11.try_into_exact
 #print axioms Dm.Props.C11.groups_partition
 #print axioms Dm.Props.C11.groups_order_independent
+#print axioms Dm.Props.C11.unattributed_variant_enabled
+#print axioms Dm.Props.C11.ignore_first_keeps_unattributed
